@@ -666,6 +666,20 @@ pub(crate) fn parse_matcher<'data>(
                 }
             };
 
+            // An `extern` block inside an `extern` block isn't allowed. Say so without parsing the
+            // inner block, otherwise the input decides how deeply we recurse.
+            if input.starts_with(b"extern ") {
+                let unexpected_extern = if input.starts_with(b"extern \"C++\"") {
+                    "C++"
+                } else {
+                    "C"
+                };
+                return Err(ContextError::from_external_error(
+                    input,
+                    VersionScriptError::UnexpectedExtern(unexpected_extern.to_string()),
+                ));
+            }
+
             let matcher = parse_matcher(input, !expect_semicolon)?;
             let ParsedSymbolMatcher::Single(matcher) = matcher else {
                 let unexpected_extern = if matches!(matcher, ParsedSymbolMatcher::CxxMatchers(_)) {
